@@ -98,11 +98,12 @@ def finish(res: CheckResult, t0: float, seed: int, repo: str, digests: Dict[str,
         bad = sum(1 for o in res.obligations if o.rule == rule and o.verdict != 'DISCHARGED')
         fl = res.floors.get(rule)
         print(f'   rule {rule}: instances={n}' + (f' floor={fl}' if fl is not None else '') + f' violated={bad}')
-    if res.errors:
-        for e in res.errors:
-            print(f'ANALYSIS-ERROR property={res.prop} {e}')
-        status = 2
+    for e in res.errors:
+        print(f'ANALYSIS-ERROR property={res.prop} {e}')
+    if res.errors and not violations:
+        status = 2          # nothing definite was found and part of the analysis is broken: no verdict
     else:
+        # definite violations are reported even if another part of the analysis could not be completed
         for o, k in known_hits:
             print(f'KNOWN-FINDING: property={res.prop} {o.key} -- {k.get("what", o.detail)}')
         if violations:
